@@ -178,6 +178,31 @@ pub fn gen(rng: &mut Rng, tier: Tier, out: &mut Vec<String>) {
             out.push(format!("{op} {}", h64(rng.u64().max(1))));
         }
     }
+    // "for every generator state" claims that are conditions on a few consecutive outputs: states SOLVED
+    // for (xorshift is linear over GF(2)), so that the first two or three outputs have prescribed
+    // mantissas — all-zero, all-one, the midpoint 2^22 (component exactly 0) and their neighbours.
+    // This is how the fixed defect circle-zero-vector (2^18 states out of 2^64) is reached.
+    let specials: [u32; 7] = [0, 1, (1 << 22) - 1, 1 << 22, (1 << 22) + 1, (1 << 23) - 2, (1 << 23) - 1];
+    for op in ["circle", "disk", "pdisk", "sphere", "ball", "pball", "vec3u", "pt2u"] {
+        let k = if op == "circle" || op == "disk" || op == "pdisk" || op == "pt2u" { 2 } else { 3 };
+        let combos = if q { 60 } else { 343 };
+        for c in 0..combos {
+            let ms: Vec<Option<u32>> = (0..k)
+                .map(|j| {
+                    let d = (c / 7usize.pow(j as u32)) % 7;
+                    // quick tier: random picks beyond the first 49 combinations
+                    Some(if q && c >= 49 { *rng.pick(&specials) } else { specials[d] })
+                })
+                .collect();
+            if let Some(s) = solve_mants(rng, &ms) {
+                match op {
+                    "vec3u" => out.push(format!("vec3 {} {} {} {} {} {} {}", h64(s), h32(-1.0), h32(1.0), h32(-1.0), h32(1.0), h32(-1.0), h32(1.0))),
+                    "pt2u" => out.push(format!("pt2 {} {} {} {} {}", h64(s), h32(-1.0), h32(1.0), h32(-1.0), h32(1.0))),
+                    _ => out.push(format!("{op} {}", h64(s))),
+                }
+            }
+        }
+    }
     // states from which rejection sampling needs unusually many rounds (found by scanning random
     // states with the library's own candidate sampler): a bounded-retry "optimisation" or a wrong
     // fallback only shows on these
@@ -227,6 +252,82 @@ pub fn gen(rng: &mut Rng, tier: Tier, out: &mut Vec<String>) {
             m0 += block;
         }
     }
+}
+
+/// One xorshift step (rand.rs `next_bits`).
+fn xs_step(mut x: u64) -> u64 {
+    x ^= x << 13;
+    x ^= x >> 7;
+    x ^= x << 17;
+    x
+}
+
+/// A non-zero state whose i-th output (i = 1, 2, …) has the given top-23-bit mantissa where `Some`,
+/// found by Gaussian elimination over GF(2) (the step is linear); free bits are random. `None` if the
+/// system is inconsistent.
+fn solve_mants(rng: &mut Rng, ms: &[Option<u32>]) -> Option<u64> {
+    // cols[n][i] = image of basis state 1<<i after n+1 steps
+    let mut cols: Vec<[u64; 64]> = vec![];
+    let mut cur: [u64; 64] = core::array::from_fn(|i| 1u64 << i);
+    for _ in 0..ms.len() {
+        for c in cur.iter_mut() {
+            *c = xs_step(*c);
+        }
+        cols.push(cur);
+    }
+    // equations: (coefficient mask over state bits, right-hand side)
+    let mut rows: Vec<(u64, bool)> = vec![];
+    for (n, m) in ms.iter().enumerate() {
+        if let Some(m) = m {
+            for j in 41..64 {
+                let mut coeff = 0u64;
+                for i in 0..64 {
+                    if (cols[n][i] >> j) & 1 == 1 {
+                        coeff |= 1 << i;
+                    }
+                }
+                rows.push((coeff, ((*m as u64) >> (j - 41)) & 1 == 1));
+            }
+        }
+    }
+    let mut piv: Vec<usize> = vec![];
+    let mut r = 0;
+    for col in 0..64 {
+        let Some(p) = (r..rows.len()).find(|&k| (rows[k].0 >> col) & 1 == 1) else { continue };
+        rows.swap(r, p);
+        for k in 0..rows.len() {
+            if k != r && (rows[k].0 >> col) & 1 == 1 {
+                rows[k].0 ^= rows[r].0;
+                rows[k].1 ^= rows[r].1;
+            }
+        }
+        piv.push(col);
+        r += 1;
+    }
+    if rows.iter().any(|&(c, b)| c == 0 && b) {
+        return None;
+    }
+    // free variables random, pivots determined
+    let pivmask: u64 = piv.iter().fold(0, |m, &c| m | (1 << c));
+    let mut s = rng.u64() & !pivmask;
+    for (k, &col) in piv.iter().enumerate() {
+        // row k: x_col + (free-variable terms) = rhs
+        let free_part = (rows[k].0 & !pivmask & s).count_ones() & 1 == 1;
+        if rows[k].1 ^ free_part {
+            s |= 1 << col;
+        }
+    }
+    // verify
+    let mut x = s;
+    for m in ms {
+        x = xs_step(x);
+        if let Some(m) = m {
+            if (x >> 41) as u32 != *m {
+                return None;
+            }
+        }
+    }
+    if s == 0 { None } else { Some(s) }
 }
 
 fn st(t: &str) -> Xorshift64 {
